@@ -126,6 +126,9 @@ def wpushD (ds : DState) (upd : String) : DState × String :=
 def stepD (ds : DState) (toks : List String) : DState × String :=
   match toks with
   | ["case", _, "equivd"] => ({ sys := { deltaCds := true } }, "ok")
+  | ["case", _, _, flags] =>
+    -- C05 case flags: d = delta-aware CDS generator, z = found-only generators return nil when nothing is found
+    ({ sys := { deltaCds := flags.contains 'd', nilFound := flags.contains 'z' } }, "ok")
   | "case" :: _ => ({}, "ok")
   | ["world", ty, res] =>
     match Ty.ofTok ty with
